@@ -66,7 +66,7 @@ def strip_sg(t):
     return t
 
 
-def run(chk, S: Session):
+def _run_core(chk, S: Session):
     chk.assume("controller parameters: 0 < factor_min < 1 <= factor_max, 0 < safety < 1, exponents > 0")
     chk.assume("error_power > 0 (it is norm ** (-1/rate) of a non-negative norm)")
     chk.assume("save_at is non-decreasing and eps >= 0")
@@ -211,6 +211,57 @@ def rejection_rules(chk, S, r1, r2, r4):
             chk.sample({"rule": "R-C06-4", "config": cfg, "attempted_dt": T.show(d, 5), "bound": T.show(room, 4)})
 
 
+
+# ---------------------------------------------------------------------------
+# Extended-real hazards.  A vanishing error estimate is legitimate (the prior can be exact) and gives error_power = +inf;
+# inf / inf, inf - inf and 0 * inf are NaN, and np.minimum / np.maximum propagate NaN, so clipping does not repair it.
+def _may_inf(t, inf_atoms, memo):
+    if not isinstance(t, T.Term):
+        return isinstance(t, float) and t in (float("inf"), float("-inf"))
+    if t.uid in memo:
+        return memo[t.uid]
+    op, a = t.op, t.args
+    if op == "atom":
+        r = t in inf_atoms
+    elif op == "np.minimum":
+        r = all(_may_inf(x, inf_atoms, memo) for x in a)
+    elif op in ("np.where", "ite"):
+        r = _may_inf(a[1], inf_atoms, memo) or _may_inf(a[2], inf_atoms, memo)
+    elif op == "div":
+        r = _may_inf(a[0], inf_atoms, memo) and not _may_inf(a[1], inf_atoms, memo)
+    elif op in ("lt", "le", "gt", "ge", "eq", "ne", "np.finfo_eps"):
+        r = False
+    else:
+        r = any(_may_inf(x, inf_atoms, memo) for x in a)
+    memo[t.uid] = r
+    return r
+
+
+def _may_zero(t, inf_atoms, memo):
+    """Can the (positive) quantity underflow to exactly 0 because it is divided by +inf?"""
+    if not isinstance(t, T.Term):
+        return False
+    if t.op == "div":
+        return _may_inf(t.args[1], inf_atoms, memo) or _may_zero(t.args[0], inf_atoms, memo)
+    if t.op in ("pow", "np.power", "mul", "np.minimum", "np.maximum", "np.where", "ite"):
+        return any(_may_zero(x, inf_atoms, memo) for x in t.args)
+    return False
+
+
+def nan_hazards(t, inf_atoms):
+    memo, out = {}, []
+    for x in T.subterms(t):
+        if not isinstance(x, T.Term):
+            continue
+        if x.op == "div" and _may_inf(x.args[0], inf_atoms, memo) and _may_inf(x.args[1], inf_atoms, memo):
+            out.append((x, "inf / inf"))
+        if x.op == "sub" and _may_inf(x.args[0], inf_atoms, memo) and _may_inf(x.args[1], inf_atoms, memo):
+            out.append((x, "inf - inf"))
+        if x.op == "mul" and ((_may_inf(x.args[0], inf_atoms, memo) and _may_zero(x.args[1], inf_atoms, memo)) or (_may_inf(x.args[1], inf_atoms, memo) and _may_zero(x.args[0], inf_atoms, memo))):
+            out.append((x, "0 * inf"))
+    return out, memo
+
+
 # ---------------------------------------------------------------------------
 def controller_rules(chk, S, r3):
     subs = S.p.subclasses(CTRL + ".Control")
@@ -299,6 +350,15 @@ def controller_rules(chk, S, r3):
             same = all(B.select_under(br, v) is a for v, (a, _init) in zip(new_leaves, leaves))
             r3.require(same if same else (False if known and not br.unknown_ops else None), f"{name}.apply rejection keeps the controller state", "error_power < 1 => state unchanged",
                        f"after a rejection the controller state becomes {[T.show(B.select_under(br, v), 4) for v in new_leaves]} instead of staying {[T.show(a) for a, _ in leaves]}", where)
+        # (vi) a vanishing error estimate (error_power = +inf) never produces NaN: the controller state stays finite (inductive) and,
+        #      with a finite state, the proposal contains no inf/inf, inf-inf or 0*inf
+        hz, memo = nan_hazards((dt_new, state_new), {E})
+        r3.require(not hz, f"{name}.apply no NaN for error_power = inf", "no inf/inf, inf-inf, 0*inf with a finite controller state",
+                   f"{[(T.show(x, 3), why) for x, why in hz[:2]]}: NaN when the error estimate vanishes", where_of(hz[0][0], where) if hz else where)
+        st_inf = [v for v in new_leaves if _may_inf(v, {E}, {})]
+        r3.require(not st_inf, f"{name}.apply controller state stays finite", "finite state is preserved for error_power in (0, +inf]",
+                   f"the controller state becomes {[T.show(v, 4) for v in st_inf[:1]]}, which is +inf when the error estimate vanishes; the next proportional gain is then inf / inf = NaN "
+                   "and min / max clipping propagates it", where_of(st_inf[0], where) if st_inf else where)
         chk.sample({"rule": "R-C06-3", "controller": name, "factor": T.show(factor, 6), "interval_any": str(ivp), "interval_rejected": str(ivr)})
 
 
@@ -549,3 +609,67 @@ LEVEL_NOTE = (
     "controller parameter assumptions 0<factor_min<1<=factor_max, 0<safety<1, exponents>0, error_power>0; save_at non-decreasing, eps>=0. "
     "Solver and error estimator are opaque collaborators here (their own behaviour is C02/C07). Termination is not decided."
 )
+
+
+def driver_loop_rules(chk, S):
+    """Python-level driver loops around RejectionLoop.loop must use the loop's own 'before t1' predicate.
+
+    RejectionLoop.loop steps only while step_from.t + eps < t1 and otherwise returns the state unchanged; a driver that keeps
+    calling it while step_from.t < t1 spins forever once a step ends within eps below t1 (clipping + rounding is enough).
+    """
+    import ast
+
+    from ..interp import Env
+
+    r8 = chk.rule("R-C06-8", "Python driver loops around RejectionLoop.loop continue exactly while step_from.t + eps < t1 (the loop's own predicate)", floor=1)
+    found = 0
+    seen = set()
+    for m in S.p.modules.values():
+        if ".backend" in m.name:
+            continue
+        # innermost enclosing function first, each while statement once
+        fns = sorted((n for n in ast.walk(m.tree) if isinstance(n, ast.FunctionDef)), key=lambda n: -(n.lineno))
+        for fn_ in fns:
+            for w in [n for n in ast.walk(fn_) if isinstance(n, ast.While)]:
+                if (m.name, w.lineno) in seen:
+                    continue
+                seen.add((m.name, w.lineno))
+                body_src = "".join(ast.unparse(b) for b in w.body)
+                fn_src = ast.unparse(fn_)
+                if "loop" not in body_src or ".loop" not in fn_src:
+                    continue
+                # the loop body must call something bound to <RejectionLoop>.loop
+                calls = [c for b in w.body for c in ast.walk(b) if isinstance(c, ast.Call) and any(k.arg == "t1" for k in c.keywords) and any(k.arg == "eps" for k in c.keywords)]
+                if not calls:
+                    continue
+                found += 1
+                c0 = calls[0]
+                t1_e = next(k.value for k in c0.keywords if k.arg == "t1")
+                eps_e = next(k.value for k in c0.keywords if k.arg == "eps")
+                st_e = c0.args[0] if c0.args else None
+                it = S.interp()
+                env = Env(None, m)
+                names = {n.id for n in ast.walk(w.test) if isinstance(n, ast.Name)} | {n.id for e_ in (t1_e, eps_e, st_e) if e_ is not None for n in ast.walk(e_) if isinstance(n, ast.Name)}
+                for nm in names:
+                    env.vars[nm] = A(f"drv.{nm}")
+                where = f"{m.relpath}:{w.lineno}"
+                try:
+                    test = it.eval(w.test, env)
+                    t1_v, eps_v = it.eval(t1_e, env), it.eval(eps_e, env)
+                    st_v = it.eval(st_e, env) if st_e is not None else None
+                except AnalysisError as e:
+                    r8.unknown(f"{m.name}.{fn_.name} driver loop", str(e), where)
+                    continue
+                S.absorb(it)
+                f = pred_form(test)
+                want = nf.add(nf.add(nf.norm(T.mk("attr", (T.mk("attr", (st_v, "step_from")), "t"))), nf.norm(eps_v)), nf.norm(t1_v), -1) if st_v is not None else None
+                r8.require(f is not None and want is not None and f == (want, "<"), f"{m.name}.{fn_.name} driver loop predicate", "continues while state.step_from.t + eps < t1",
+                           f"the driver continues while {ast.unparse(w.test)}, but RejectionLoop.loop(state, t1={ast.unparse(t1_e)}, eps={ast.unparse(eps_e)}) only advances while step_from.t + eps < t1: "
+                           "once a step ends within eps below t1 the driver spins forever", where)
+    if found == 0:
+        r8.unknown("driver loops", "no Python while-loop around RejectionLoop.loop found (anchor vanished: util.test_util.solve_adaptive_save_every_step)")
+
+
+def run(chk, S: Session):
+    _run_core(chk, S)
+    driver_loop_rules(chk, S)
